@@ -43,11 +43,11 @@ PROP = dict(
         "the model pools every cell type alike (worst case); Boolean/Ternary/Null are shared singletons that Discard ignores",
     ],
     level_text="Proof + regenerated obligations + differential validation. (1) Coq theorems (Properties/C14.v, all closed under the global context) over a machine of pointer variables, heap cells and a sync.Pool with an ARBITRARY policy (which objects survive, which one Get returns, at every step): C14_pool_transparent / C14_policy_irrelevant -- on every disciplined instruction sequence the pooled run is stuck iff the pool-free run is, gives the same outputs and the same value for every live ref, for every policy (simulation proved by induction over the trace); C14_reads_see_initial -- at every prefix, every ref the program never assigns reads as initially; C14_discipline_sound / C14_facts_give_transparency -- if the Boolean check of the per-call-site fact base is true and every Discard of a trace comes from a listed site whose facts describe the trace, the trace is disciplined; C14_ast_immutable -- if no step assigns a ref of the syntax tree, evaluating the statement again (any pool content, any policy) gives the same outputs and leaves the tree as it was; refutations show both hypotheses are needed (premature discard; F-C14-1's overwrite of Args[0]). (2) On every run /verif/translator re-extracts from the CURRENT source every value.Discard call site (125 today), every constructor of lib/value with the kind of each return path, every write through a lib/parser value, every write to a pooled cell; Coq evaluates the theorem hypotheses on them (vm_compute). (3) Every generated program (all functions of query.Functions on literal / table-cell / variable operands, in WHILE loops, user-defined functions, prepared statements run twice; operators; GROUP BY / ORDER BY / analytic / DML / cursor / view statements over 240-row tables with 2-4 workers) is parsed once and its tree executed twice, with the pool active and with a poisoning Discard, requiring identical output, no poison marker, an unchanged deep dump of the tree and an identical second evaluation.",
-    level_note="Partial: the theorems are about the pool model and the abstract machine; the step from the Go source to the fact base (translator) and from function bodies to machine traces is trusted, validated by the poisoned differential runs. Two call sites are accepted by written justification (allowlist). Known finding F-C14-1 (analytic-args-overwrite): Analyze overwrites fn.Args[0] in the slice shared with the parsed statement, so C14_ast_immutable's hypothesis is false of the code today.",
+    level_note="Partial: the theorems are about the pool model and the abstract machine; the step from the Go source to the fact base (translator) and from function bodies to machine traces is trusted, validated by the poisoned differential runs. Two call sites are accepted by written justification (allowlist). F-C14-1 (Analyze overwrote fn.Args[0] in the slice shared with the parsed statement) is repaired by a fix: commit; it reappears as an ast-write violation if it returns.",
     technique="Coq pool-transparency theorem (simulation of an arbitrary-policy sync.Pool heap by a pool-free value semantics, induction over traces) + per-call-site obligations regenerated from the current Go source by a go/types translator and checked in Coq by vm_compute (Discard sites, constructor freshness, writes through parser values, cell writes) + poisoned-Discard differential runs of the library (pool active vs. poisoned, first vs. second evaluation of one parsed tree, deep tree dump before/after)",
     design_ref="DESIGN.md section 5 (C14), section 6 (F-C14-1), section 2 (hooks)",
     harness_timeout={"quick": 900, "thorough": 3000},
 )
 
 # the hook is delivered as hooks/c14_poison_discard.patch; the lead records the /repo commit here once applied
-HOOK_COMMITS = []
+HOOK_COMMITS = ["784706f"]
